@@ -1,5 +1,5 @@
 import Driver.Syntax
-import Pcore.Model.Print
+import Pcore.Model.Types
 /-!
 Driver ops for C05 (syntax in harness/c05):
   quote <xS> | rxquote <xS> | rt-str <xS> | rt-rx <xS> <compiles t|f> (<xBADRX>*) | rt-int <N>
@@ -72,6 +72,46 @@ def exec : List Sexp → String
       let text := printVal x
       strHex text ++ " rt=" ++ boolStr (parsesTo (mkEnv bl) text (fun e => Expr.beq e (exprOf x)))
     | _, _ => "bad-op"
+  | [.atom "rt-type", tx, bad] =>
+    match tx.bytes?, badList bad with
+    | some bs, some bl =>
+      let env := mkEnv bl
+      match parseType env (decodeUtf8 bs) with
+      | none => "unmodelled"
+      | some t =>
+        let s := printTy t
+        let ok := match parseType env (syms s) with
+          | some t2 => Ty.beq t2 t && printTy t2 == s
+          | none => false
+        strHex s ++ " rt=" ++ boolStr ok
+    | _, _ => "bad-op"
+  | [.atom "rt-api", ctor] =>
+    -- a type built through the Go constructors: NewArrayType / NewHashType / NewCollectionType / NewStringType
+    let env := mkEnv []
+    let name (e : Sexp) : Option Ty := (strArg e).bind fun n => resolveName n
+    let built : Option Ty :=
+      match ctor with
+      | .list [.atom "array", e, lo, hi] => do
+        let t ← name e; let a ← lo.int?; let b ← hi.int?
+        pure (.array t a b)
+      | .list [.atom "hash", k, v, lo, hi] => do
+        let tk ← name k; let tv ← name v; let a ← lo.int?; let b ← hi.int?
+        pure (.hash tk tv a b)
+      | .list [.atom "collection", lo, hi] => do
+        let a ← lo.int?; let b ← hi.int?
+        pure (.collection a b)
+      | .list [.atom "string", lo, hi] => do
+        let a ← lo.int?; let b ← hi.int?
+        newStr a b
+      | _ => none
+    match built with
+    | none => "bad-op"
+    | some t =>
+      let s := printTy t
+      let ok := match parseType env (syms s) with
+        | some t2 => Ty.beq t2 t && printTy t2 == s
+        | none => false
+      strHex s ++ " rt=" ++ boolStr ok
   | [.atom "rt-int", n] =>
     match n.int? with
     | some i =>
